@@ -34,3 +34,51 @@ Theorem C06_permute_shares_draws : forall (T U : Type) (f : T -> U) (x : seq T) 
   match perm_loop x reps t with Ok at' => Ok (map (map f) at'.1, at'.2) | Err e => Err e end.
 Proof. exact perm_loop_map. Qed.
 Print Assumptions C06_permute_shares_draws.
+
+(* Calls compose on a shared generator ("any prior history of calls"): every randomized function consumes a prefix of the
+   answers and leaves the rest as it found them -- f t = Ok (r, t') implies f (t ++ more) = Ok (r, t' ++ more) -- so a call
+   that follows another on the same generator instance starts exactly where the first stopped and returns what it returns
+   alone on the answers it consumes.  Stated for the tests and for the helpers. *)
+From PV Require Import Model.Stratified Proofs.Frame.
+Theorem C06_tests_consume_a_prefix_of_the_stream :
+  (forall s pot nx a reps plus1 t r more, two_sample_core s pot nx a reps plus1 t = Ok r ->
+     two_sample_core s pot nx a reps plus1 (t ++ more)%list = Ok (with_rest r (rest r ++ more)%list)) /\
+  (forall x y s a reps plus1 t r more, one_sample x y s a reps plus1 t = Ok r ->
+     one_sample x y s a reps plus1 (t ++ more)%list = Ok (with_rest r (rest r ++ more)%list)) /\
+  (forall x g s reps plus1 t p tst d ar t' more, k_sample x g s reps plus1 t = Ok (p, tst, d, ar, t') ->
+     k_sample x g s reps plus1 (t ++ more)%list = Ok (p, tst, d, ar, (t' ++ more)%list)) /\
+  (forall x g1 g2 reps plus1 t p tst d ar t' more, bivariate_k_sample x g1 g2 reps plus1 t = Ok (p, tst, d, ar, t') ->
+     bivariate_k_sample x g1 g2 reps plus1 (t ++ more)%list = Ok (p, tst, d, ar, (t' ++ more)%list)) /\
+  (forall g c resp ord s a reps plus1 t p tst d ar t' more, s2s_callable g c resp ord s a reps plus1 t = Ok (p, tst, d, ar, t') ->
+     s2s_callable g c resp ord s a reps plus1 (t ++ more)%list = Ok (p, tst, d, ar, (t' ++ more)%list)).
+Proof.
+  split; [exact two_sample_core_frame|]. split; [exact one_sample_frame|]. split; [exact k_sample_frame|].
+  split; [exact bivariate_k_sample_frame|exact s2s_callable_frame].
+Qed.
+Print Assumptions C06_tests_consume_a_prefix_of_the_stream.
+
+Theorem C06_helpers_consume_a_prefix_of_the_stream : forall (T : Type) (d : T) (x : list T) (g : list Z) (m : list (list T)) reps,
+  frames (permute x) /\ frames (pyshuffle x) /\ frames (sample_all x) /\ frames (permute_within_groups d x g) /\
+  frames (permute_rows m) /\ frames (perm_loop x reps) /\ frames (pwg_reps d x g reps) /\ frames (rows_chain m reps).
+Proof.
+  intros. repeat split; [apply frames_permute|apply frames_pyshuffle|apply frames_sample_all|apply frames_pwg|
+    apply frames_permute_rows|apply frames_perm_loop|apply frames_pwg_reps|apply frames_rows_chain].
+Qed.
+Print Assumptions C06_helpers_consume_a_prefix_of_the_stream.
+
+Theorem C06_calls_compose_on_a_shared_generator :
+  forall (A B : Type) (f : tape -> result (A * tape)) (g : tape -> result (B * tape)) t1 t2 a b t3,
+  frames f -> f t1 = Ok (a, nil) -> g t2 = Ok (b, t3) ->
+  bind (f (t1 ++ t2)%list) (fun at' => bind (g (snd at')) (fun bt => Ok (fst at', fst bt, snd bt))) = Ok (a, b, t3).
+Proof. exact (@calls_compose). Qed.
+Print Assumptions C06_calls_compose_on_a_shared_generator.
+
+(* the same for the Experiment randomizers (randomize_group, randomize_in_strata) and the repetition chain of
+   sim_npc / westfall_young *)
+From PV Require Import Model.Experiment Proofs.FrameExperiment.
+Theorem C06_experiment_randomizers_consume_a_prefix : forall k g s resp fs reps,
+  frames (randomize_once k g s) /\
+  (forall t rows g' t' more, rand_chain k g s resp fs reps t = Ok (rows, g', t') ->
+     rand_chain k g s resp fs reps (t ++ more)%list = Ok (rows, g', (t' ++ more)%list)).
+Proof. intros. split; [apply frames_randomize_once|apply rand_chain_frame]. Qed.
+Print Assumptions C06_experiment_randomizers_consume_a_prefix.
